@@ -3,7 +3,7 @@ from vlib import common as C
 from vlib import langsuite as L
 
 
-def run_one(prop, suite, tier, rule, assumptions, extra_thorough=(), gen=0, extra_always=()):
+def run_one(prop, suite, tier, rule, assumptions, extra_thorough=(), gen=0, extra_always=(), twin_suites=()):
     """extra_thorough: further suites run in the thorough tier; gen: number of generated programs whose
     result-level disagreements attributed to `prop` are reported too (thorough tier; 250 in the quick tier)."""
     from vlib import gensuite as G
@@ -29,6 +29,20 @@ def run_one(prop, suite, tier, rule, assumptions, extra_thorough=(), gen=0, extr
         # quick tier: a small batch of generated programs (own salt per property, so the four checks that do this
         # look at different programs); only disagreements attributed to `prop` are reported here
         results.append(G.run_gen(chk, tier, 250, salt=sum(map(ord, prop))))
+    # constant twins of OTHER suites' cases (C04): the case with its hidden operands visible to the folder must
+    # behave like the case itself; reported here when the twin disagrees with the specification and the case does not
+    n_twins = 0
+    for s in twin_suites:
+        r = L.run_suite(chk, s, tier)
+        broken = {m.get("id") for m in r["mismatches"] if not str(m.get("id", "")).endswith("#const")}
+        n_twins += r["cases"]
+        for m in r["mismatches"]:
+            cid = str(m.get("id", ""))
+            if cid.endswith("#const") and cid[:-6] not in broken:
+                chk.violation({"kind": "const-twin-diverges", "suite": s, "what": m.get("what", "")[:200],
+                               "program": m.get("program", "")}, m)
+    if twin_suites:
+        chk.cov["const_twin_suites"] = {"suites": list(twin_suites), "cases_incl_twins": n_twins}
     L.fill_coverage(chk, results, n, rule)
     chk.cov["exhaustive"] = True
     others = L.report(chk, prop, results, bad, attribute=G.attribute)
